@@ -137,24 +137,28 @@ theorem remove_frames (limit : Nat) (c : Ctx) (w : Wid) (addrs : List Addr) (s :
   | some o1 =>
     simp only [hr] at h
     -- first: the frame of RemoveRelevantTx itself (store o1.s)
-    obtain ⟨uh, del1, s2, del2, hnf, hmt, ho1⟩ := (removeRelevantTx_pipeline limit c s addrs o1 hne hr).ex
+    obtain ⟨uh, del1, del3, s2, del2, hnf, hmt, ho1⟩ := (removeRelevantTx_pipeline limit c s addrs o1 hne hr).ex
     let s0 := (removeRelevantUnminedCredit s addrs).1
     let s1 := (removeUnminedTxs c.own s0 addrs uh).1
     let sc := removeRelevantCredit limit s1 addrs
+    let s1' := (removeUnminedTxs c.own sc.s addrs sc.spenders).1
+    have hs1'cd : cd s1' = cd sc.s := unminedTxs_proj cd (fun _ _ => rfl) (fun _ _ => rfl) c.own sc.s addrs sc.spenders
+    have hs1'pc : s1'.pendCred = sc.s.pendCred := unminedTxs_proj Store.pendCred (fun _ _ => rfl) (fun _ _ => rfl) c.own sc.s addrs sc.spenders
+    have hs1'recs : recs s1' = recs sc.s := unminedTxs_proj recs (fun _ _ => rfl) (fun _ _ => rfl) c.own sc.s addrs sc.spenders
     have hs1cd : cd s1 = cd s := by
       show cd (removeUnminedTxs c.own _ addrs uh).1 = _
-      rw [unminedTxs_proj cd (fun _ _ => rfl), unminedCredit_cd]
+      rw [unminedTxs_proj cd (fun _ _ => rfl) (fun _ _ => rfl), unminedCredit_cd]
     have hs1c : s1.credits = s.credits := congrArg Prod.fst hs1cd
     have hs1d : s1.debits = s.debits := congrArg Prod.snd hs1cd
     have hs1recs : recs s1 = recs s := by
       show recs (removeUnminedTxs c.own _ addrs uh).1 = _
-      rw [unminedTxs_proj recs (fun _ _ => rfl), unminedCredit_recs]
+      rw [unminedTxs_proj recs (fun _ _ => rfl) (fun _ _ => rfl), unminedCredit_recs]
     have hs1pc : s1.pendCred = s.pendCred.filter (fun e => !addrs.contains e.2.sh) := by
       show (removeUnminedTxs c.own _ addrs uh).1.pendCred = _
-      rw [unminedTxs_proj Store.pendCred (fun _ _ => rfl), unminedCredit_pendCred]
+      rw [unminedTxs_proj Store.pendCred (fun _ _ => rfl) (fun _ _ => rfl), unminedCredit_pendCred]
     have hscrecs : recs sc.s = recs s := (scan_recs_pending limit s1 addrs).1.trans hs1recs
     have ho1s : o1.s = checkBlockRecords s2 del2 := by rw [ho1]
-    have hcd2 : cd s2 = cd sc.s := minedTxs_proj cd (fun _ _ => rfl) c _ addrs _ (s2, del2) hmt
+    have hcd2 : cd s2 = cd sc.s := (minedTxs_proj cd (fun _ _ => rfl) c _ addrs _ (s2, del2) hmt).trans hs1'cd
     have ho1cd : cd o1.s = cd sc.s := by rw [ho1s, blockRecords_proj cd (fun _ _ => rfl)]; exact hcd2
     have ho1c : o1.s.credits = sc.s.credits := congrArg Prod.fst ho1cd
     have ho1d : o1.s.debits = sc.s.debits := congrArg Prod.snd ho1cd
@@ -182,22 +186,23 @@ theorem remove_frames (limit : Nat) (c : Ctx) (w : Wid) (addrs : List Addr) (s :
       rw [ho1d]
       exact removeRelevantCredit_keeps_debit limit s1 addrs hfc1 hback1 x (by rw [hs1d]; exact hx) cr
         (by rw [hs1c]; exact hcr) hk hn
-    -- removable is judged on sc.s; it is stable from s
-    have hmono : ∀ tx, removable c.own s addrs tx = false → removable c.own sc.s addrs tx = false := by
+    -- removable is judged on the store the tx-record loop starts from (s1'); it is stable from s
+    have hmono : ∀ tx, removable c.own s addrs tx = false → removable c.own s1' addrs tx = false := by
       intro tx hrm
-      refine removable_mono c.own s sc.s addrs tx ?_ ?_ hrm
+      refine removable_mono c.own s s1' addrs tx ?_ ?_ hrm
       · intro x hx hn
+        rw [show s1'.credits = sc.s.credits from congrArg Prod.fst hs1'cd]
         exact removeRelevantCredit_keeps_credit limit s1 addrs hfc1 x (by rw [hs1c]; exact hx) hn
       · intro k v hg hn
-        rw [scan_pendCred, hs1pc]
+        rw [hs1'pc, scan_pendCred, hs1pc]
         exact get_filter_of_get _ _ k v hg (by show (!addrs.contains v.sh) = true; rw [hn]; rfl)
-    have hsctx : sc.s.txrecs = s.txrecs := congrArg Prod.fst hscrecs
-    have hscbl : sc.s.blocks = s.blocks := congrArg Prod.snd hscrecs
+    have hsctx : s1'.txrecs = s.txrecs := congrArg Prod.fst (hs1'recs.trans hscrecs)
+    have hscbl : s1'.blocks = s.blocks := congrArg Prod.snd (hs1'recs.trans hscrecs)
     have htx : ∀ x ∈ s.txrecs, (∀ tx, c.node.txByFileLoc x.2 = some tx → removable c.own s addrs tx = false) →
         x ∈ o1.s.txrecs := by
       intro x hx hneed
       rw [ho1s, blockRecords_proj Store.txrecs (fun _ _ => rfl)]
-      exact minedTxs_kept c sc.s addrs sc.heightOf (s2, del2) hmt (by rw [hsctx]; exact hft) x (by rw [hsctx]; exact hx)
+      exact minedTxs_kept c s1' addrs sc.heightOf (s2, del2) hmt (by rw [hsctx]; exact hft) x (by rw [hsctx]; exact hx)
         (fun tx htx => hmono tx (hneed tx htx))
     have hblk : ∀ h bh txs t, AMap.get s.blocks h = some (bh, txs) → t ∈ txs →
         (∀ x ∈ s.txrecs, x.1.1 = t → x.1.2.height = h →
@@ -209,7 +214,7 @@ theorem remove_frames (limit : Nat) (c : Ctx) (w : Wid) (addrs : List Addr) (s :
         rw [minedTxs_proj Store.blocks (fun _ _ => rfl) c _ addrs _ (s2, del2) hmt]; exact hscbl
       refine blockRecords_kept s2 del2 h bh txs t (by rw [hb2]; exact hg) ht ?_
       intro hin
-      obtain ⟨rec, tx, hrm, hid, hh, hloc, hrem⟩ := minedTxs_reported c sc.s addrs sc.heightOf (s2, del2) hmt (h, t) hin
+      obtain ⟨rec, tx, hrm, hid, hh, hloc, hrem⟩ := minedTxs_reported c s1' addrs sc.heightOf (s2, del2) hmt (h, t) hin
       rw [hsctx] at hrm
       have := hmono tx (hneed rec hrm hid hh tx hloc)
       rw [this] at hrem; cases hrem
@@ -244,45 +249,99 @@ theorem remove_frames (limit : Nat) (c : Ctx) (w : Wid) (addrs : List Addr) (s :
         fun e _ => by rw [hb], fun e _ => by rw [hst], ⟨hsy, hsyt⟩, hcred, hpend, hdeb, htx, hblk⟩
 
 
-/-- **remove_pending_kept.** A pending transaction that another wallet needs (not removable, judged after the
-    removed wallet's unmined credits are gone) keeps its record — with its full bytes, which may name the
-    removed wallet's script hashes in its outputs: that is the one place where they legitimately remain. -/
+/-- **remove_pending_kept.** A pending transaction that another wallet needs (not removable: it pays another
+    keystore's address or spends another wallet's mined / unmined credit) keeps its record through both passes over
+    the pending set — with its full bytes, which may name the removed wallet's script hashes in its outputs: that is
+    the one place where they legitimately remain.  (What is removable goes: the transactions found through the
+    wallet's unmined credits AND, since the repair of the spender leak, those found through the spent marks of its
+    deleted credits.) -/
 theorem remove_pending_kept (limit : Nat) (c : Ctx) (w : Wid) (addrs : List Addr) (s : Store) (o : StepOut)
-    (hne : addrs ≠ []) (hfp : Functional s.pending) (h : removeStep limit c w addrs s = some o)
-    (x : TxId × Tx) (hx : x ∈ s.pending)
-    (hneeded : removable c.own (removeRelevantUnminedCredit s addrs).1 addrs x.2 = false) : x ∈ o.s.pending := by
+    (hne : addrs ≠ []) (hfp : Functional s.pending) (hfc : Functional s.credits)
+    (h : removeStep limit c w addrs s = some o)
+    (x : TxId × Tx) (hx : x ∈ s.pending) (hneeded : removable c.own s addrs x.2 = false) : x ∈ o.s.pending := by
   unfold removeStep at h
   cases hr : removeRelevantTx limit c s addrs with
   | none => simp [hr] at h
   | some o1 =>
     simp only [hr] at h
-    obtain ⟨uh, del1, s2, del2, hnf, hmt, ho1⟩ := (removeRelevantTx_pipeline limit c s addrs o1 hne hr).ex
-    have hp0 : (removeRelevantUnminedCredit s addrs).1.pending = s.pending := unminedCredit_pending s addrs
-    have hk := unminedTxs_kept c.own (removeRelevantUnminedCredit s addrs).1 addrs uh (by rw [hp0]; exact hfp) x
-      (by rw [hp0]; exact hx) hneeded
-    have h1 : o1.s.pending = (removeUnminedTxs c.own (removeRelevantUnminedCredit s addrs).1 addrs uh).1.pending := by
+    obtain ⟨uh, del1, del3, s2, del2, hnf, hmt, ho1⟩ := (removeRelevantTx_pipeline limit c s addrs o1 hne hr).ex
+    let s0 := (removeRelevantUnminedCredit s addrs).1
+    let s1 := (removeUnminedTxs c.own s0 addrs uh).1
+    let sc := removeRelevantCredit limit s1 addrs
+    have hp0 : s0.pending = s.pending := unminedCredit_pending s addrs
+    have hc0 : s0.credits = s.credits := congrArg Prod.fst (unminedCredit_cd s addrs)
+    have hpc0 : s0.pendCred = s.pendCred.filter (fun e => !addrs.contains e.2.sh) := unminedCredit_pendCred s addrs
+    have hs1c : s1.credits = s.credits :=
+      (congrArg Prod.fst (unminedTxs_proj cd (fun _ _ => rfl) (fun _ _ => rfl) c.own s0 addrs uh)).trans hc0
+    have hs1pc : s1.pendCred = s0.pendCred := unminedTxs_proj Store.pendCred (fun _ _ => rfl) (fun _ _ => rfl) c.own s0 addrs uh
+    -- first pass: judged on s0
+    have hn0 : removable c.own s0 addrs x.2 = false := by
+      refine removable_mono c.own s s0 addrs x.2 ?_ ?_ hneeded
+      · intro y hy _; rw [hc0]; exact hy
+      · intro k v hg hn
+        rw [hpc0]
+        exact get_filter_of_get _ _ k v hg (by show (!addrs.contains v.sh) = true; rw [hn]; rfl)
+    have hk1 : x ∈ s1.pending :=
+      unminedTxs_kept c.own s0 addrs uh (by rw [hp0]; exact hfp) x (by rw [hp0]; exact hx) hn0
+    -- second pass: judged on the store the credit scan leaves
+    have hscp : sc.s.pending = s1.pending := (scan_recs_pending limit s1 addrs).2
+    have hfun1 : Functional s1.pending := by
+      intro e e' he he' hk
+      have hsub : ∀ y ∈ s1.pending, y ∈ s.pending := by
+        intro y hy
+        have : ∀ (l : List TxId) (acc : Store × List TxId), (∀ z ∈ acc.1.pending, z ∈ s.pending) →
+            ∀ z ∈ (l.foldl (unminedStep c.own addrs) acc).1.pending, z ∈ s.pending := by
+          intro l
+          induction l with
+          | nil => intro acc ha; exact ha
+          | cons a l ih =>
+            intro acc ha
+            simp only [List.foldl_cons]
+            apply ih
+            rcases unminedStep_cases c.own addrs acc a with h' | ⟨_, _, _, h'⟩ <;> rw [h']
+            · exact ha
+            · intro z hz; exact ha z (erase_subset _ _ _ hz)
+        exact this uh (s0, []) (by intro z hz; rw [hp0] at hz; exact hz) y hy
+      exact hfp e e' (hsub e he) (hsub e' he') hk
+    have hn2 : removable c.own sc.s addrs x.2 = false := by
+      refine removable_mono c.own s sc.s addrs x.2 ?_ ?_ hneeded
+      · intro y hy hn
+        exact removeRelevantCredit_keeps_credit limit s1 addrs (by rw [hs1c]; exact hfc) y (by rw [hs1c]; exact hy) hn
+      · intro k v hg hn
+        rw [scan_pendCred, hs1pc, hpc0]
+        exact get_filter_of_get _ _ k v hg (by show (!addrs.contains v.sh) = true; rw [hn]; rfl)
+    have hk2 : x ∈ (removeUnminedTxs c.own sc.s addrs sc.spenders).1.pending :=
+      unminedTxs_kept c.own sc.s addrs sc.spenders (by rw [hscp]; exact hfun1) x (by rw [hscp]; exact hk1) hn2
+    have h1 : o1.s.pending = (removeUnminedTxs c.own sc.s addrs sc.spenders).1.pending := by
       rw [ho1]
       show (checkBlockRecords s2 del2).pending = _
       rw [blockRecords_proj Store.pending (fun _ _ => rfl),
           minedTxs_proj Store.pending (fun _ _ => rfl) c _ addrs _ (s2, del2) hmt]
-      exact (scan_recs_pending limit _ addrs).2
     by_cases hfin : o1.finish = true
     · simp only [hfin, if_true, Option.some.injEq] at h
       have ho : o = _ := h.symm
       subst ho
       show x ∈ o1.s.pending
-      rw [h1]; exact hk
+      rw [h1]; exact hk2
     · simp only [hfin, Bool.false_eq_true, if_false, Option.some.injEq] at h
       have ho : o = o1 := h.symm
       subst ho
-      rw [h1]; exact hk
+      rw [h1]; exact hk2
 
 /-- FULL statement of "the survivors stay correct under LATER reorganisations", kept type-checked: rolling back
     after a removal step gives, on every other wallet's projection, what rolling back before it gives.
-    NOT PROVED: it needs a frame argument through MW.Model.Ledger.rollback (nested monadic loops); what is proved
-    instead is that every record `rollback` reads for another wallet survives the step (`remove_frames`:
-    `txrecs`, `blocks`, `credits`, `debits`, id-keyed buckets), and the three-way differential runs compare the
-    survivors with the chain specification after reorganisations that follow a removal. -/
+    NOT PROVED.  With C01's library (`Inv c s chain`, `rollback_connect`, `reorg_reaches`) the natural route is no longer
+    a frame argument through `rollback` but `remove ⊨ project`: if `Inv c s chain` holds and the finishing step yields
+    `o`, then `Inv c' o.s chain` for `c'` = `c` without the removed keystore — after which every later reorganisation is
+    C01's `reorg_reaches` for `c'`.  STILL MISSING for that: (1) `bookOf p own' chain` is the restriction of
+    `bookOf p own chain` to the other wallets (credits / debits / unspent / deposit records of other script hashes,
+    tx and block records of exactly the transactions that touch another wallet) — a statement about MW.Spec.Books alone;
+    (2) `removable … tx = false ↔ tx touches another wallet's books` given `Agree` (the credit-based test of
+    `spendsCreditOfOtherWallet` against the books' `touches`); (3) `Inv`'s `AllReady` hypothesis: between `RemoveWallet`
+    and the finishing step the flagged wallet is not ready while its keystore exists, the same gap as for an importing
+    wallet (MW.Props.C07.import_exact_full, item 2).  `remove_frames` already gives the store-level half of (1)+(2):
+    every record of another wallet survives, nothing of the removed wallet does (`remove_erases`).  The three-way
+    differential runs compare the survivors with the chain specification after reorganisations that follow a removal. -/
 def remove_frames_rollback_full : Prop :=
   ∀ (limit : Nat) (c : Ctx) (w w' : Wid) (addrs : List Addr) (s : Store) (o : StepOut) (height : Nat) (r r' : Store),
     w' ≠ w → removeStep limit c w addrs s = some o →
@@ -523,6 +582,26 @@ example : SpenderBack st := by
 example : removableOld ctx.own ["A2"] t3 = true ∧ removable ctx.own st ["A2"] t3 = false := by decide
 example : (removeStep 20000 ctx "W2" ["A2"] st).map (fun o => (o.s.txrecs.map (·.1.1), o.s.blocks.map (·.2.2), o.s.debits.length)) =
     some (["T3", "C1"], [["T3"], ["C1"]], 1) := by decide
+
+/-- the spender leak, as a test: a pending transaction that only SPENDS a coin of the removed wallet (it has no unmined
+    credit of it) is found through the spent mark of the deleted credit and goes with the wallet -/
+example : (removeStep 20000 ctx "W2" ["A2"]
+      { st with pending := [("P1", ⟨"P1", false, [⟨"T4", 0, 0⟩], [⟨"X9", 5, .std⟩]⟩)], pendIns := [(("T4", 0), ["P1"])] }).map
+    (fun o => (o.s.pending.length, o.s.pendIns.length, o.removedTx)) = some (0, 0, ["P1", "T4"]) := by decide
+
+/-- remove_pending_kept, hypotheses met on a store with two pending transactions (tests): P1 only spends W2's coin T4:0
+    and goes; P2 spends W2's coin T3:0 but pays W1 (not removable), keeps its record AND its spent mark, so that a
+    confirmed double spend of T3:0 still finds it -/
+def stP : Store :=
+  { st with pending := [("P1", ⟨"P1", false, [⟨"T4", 0, 0⟩], [⟨"X9", 5, .std⟩]⟩), ("P2", ⟨"P2", false, [⟨"T3", 0, 0⟩], [⟨"A1", 5, .std⟩]⟩)],
+            pendIns := [(("T4", 0), ["P1"]), (("T3", 0), ["P2"])] }
+example : Functional stP.pending := by
+  intro e e' he he' hk
+  simp [stP] at he he'
+  rcases he with rfl | rfl <;> rcases he' with rfl | rfl <;> first | rfl | (exfalso; revert hk; decide)
+example : stP.pending.map (fun x => removable ctx.own stP ["A2"] x.2) = [true, false] := by decide
+example : (removeStep 20000 ctx "W2" ["A2"] stP).map (fun o => (o.s.pending.map (·.1), o.s.pendIns)) =
+    some (["P2"], [(("T3", 0), ["P2"])]) := by decide
 
 /-- remove_progress / remove_resumes: with step size 1 the same removal needs two steps (tests) -/
 example : (removeStep 1 ctx "W2" ["A2"] st).map (fun o => (o.finish, left o.s ["A2"])) = some (false, 1) ∧ left st ["A2"] = 2 := by decide
